@@ -207,6 +207,16 @@ def rule_persistent(ctx, m):
                        if container else f'read while flying in {rs[0][0].qualname} (line {rs[0][1].lineno})')
                     + ': a later flight sees values left by an earlier one'),
                    line=getattr(st0, 'lineno', f0.node.lineno))
+        # attributes of builder-persistent objects (self.options.x = …) written during a flight
+        for f in flight:
+            if f.name == '__init__':
+                continue
+            for t, st, how in stores_to(f.node):
+                if isinstance(t, ast.Attribute) and isinstance(t.value, ast.Attribute) and norm(t.value.value) == 'self' \
+                        and t.value.attr in init_attrs and t.value.attr not in cattrs:
+                    ctx.ob('C17-R2', f, f'{norm(t)} written during a flight', False,
+                           f'self.{t.value.attr} is shared by every flight of this builder (and, being a default '
+                           'argument instance, by every builder): changing it makes later flights differ', line=st.lineno)
         if not persistent_written:
             ctx.ob('C17-R2', (b.file, b.name), 'no builder-persistent attribute written during a flight', True,
                    'all stores go to the per-flight context')
